@@ -116,6 +116,10 @@ def random_scenarios(n):
             # near misses: target notes a fraction of a millisecond away from a sounded source time (as after a rate change)
             for t in times:
                 tgt.append({"t": t + r.choice([0.4, -0.3, 0.25]), "c": r.randint(0, 6), "n": 0, "k": "hit", "hs": 0, "vol": 0, "file": ""})
+        if i % 5 == 2:
+            # both charts at times that are not whole milliseconds
+            for x in src + tgt:
+                x["t"] = x["t"] + 0.75
         if not tgt:
             tgt.append({"t": 3000, "c": 0, "n": 0, "k": "hit", "hs": 0, "vol": 0, "file": ""})
         out.append({"id": f"r{i}", "src": src, "tgt": tgt, "sform": r.choice(FORMS), "tform": r.choice(FORMS)})
